@@ -186,6 +186,7 @@ const (
 	avValid                // unknown, but a valid (non-nil) value
 	avNilPtr               // the nil pointer / nil error
 	avSet                  // one of a few known constants (join of different constants)
+	avList                 // a known list of string constants (the declared `type` list in TYPE-TABLE)
 	avTuple
 	avTop
 )
@@ -227,6 +228,12 @@ func (v aval) String() string {
 		}
 		sort.Strings(ss)
 		return "{" + strings.Join(ss, "|") + "}"
+	case avList:
+		var ss []string
+		for _, c := range v.set {
+			ss = append(ss, c.ExactString())
+		}
+		return "[" + strings.Join(ss, ",") + "]"
 	case avTuple:
 		var s []string
 		for _, e := range v.tup {
@@ -252,7 +259,7 @@ func (v aval) eq(w aval) bool {
 			return false
 		}
 		return v.a == w.a
-	case avSet:
+	case avSet, avList:
 		return v.String() == w.String()
 	case avTuple:
 		if len(v.tup) != len(w.tup) {
@@ -854,12 +861,23 @@ func (di *dynInterp) call(f *ssa.Function, c *ssa.Call, get func(ssa.Value) aval
 		}
 		return top
 	}
+	if b, ok := cc.Value.(*ssa.Builtin); ok && b.Name() == "len" && len(args) == 1 && args[0].k == avList {
+		return cInt(int64(len(args[0].set)))
+	}
 	g := cc.StaticCallee()
 	if g == nil {
 		return top
 	}
 	if di.p.InSubject(g) {
 		return di.run(g, args, depth+1)
+	}
+	if core.QualName(g) == "spec.StringOrArray.Contains" && len(args) == 2 && args[0].k == avList && args[1].k == avConst && args[1].c.Kind() == constant.String {
+		for _, e := range args[0].set {
+			if constant.Compare(e, token.EQL, args[1].c) {
+				return cBool(true)
+			}
+		}
+		return cBool(false)
 	}
 	q := core.QualName(g)
 	switch q {
